@@ -44,7 +44,7 @@ fn is_permutation<const L: usize>(old: &[u8; L], new: &[u8; L]) -> bool {
     count(old, x) == count(new, x)
 }
 
-pub fn c18_insertion_sort<const L: usize>() {
+pub fn k18_insertion_sort<const L: usize>() {
     let old: [u8; L] = kani::any();
     let mut v = old;
     insertion_sort(&mut v, &less);
@@ -53,7 +53,7 @@ pub fn c18_insertion_sort<const L: usize>() {
     kani::cover!(v[0] != old[0]);
 }
 
-pub fn c18_heapsort<const L: usize>() {
+pub fn k18_heapsort<const L: usize>() {
     let old: [u8; L] = kani::any();
     let mut v = old;
     heapsort(&mut v, &less);
@@ -62,7 +62,7 @@ pub fn c18_heapsort<const L: usize>() {
     kani::cover!(v[0] != old[0]);
 }
 
-pub fn c18_shift_head<const L: usize>() {
+pub fn k18_shift_head<const L: usize>() {
     let old: [u8; L] = kani::any();
     kani::assume(sorted(&old[1..]));
     let mut v = old;
@@ -72,7 +72,7 @@ pub fn c18_shift_head<const L: usize>() {
     kani::cover!(v[0] != old[0]);
 }
 
-pub fn c18_shift_tail<const L: usize>() {
+pub fn k18_shift_tail<const L: usize>() {
     let old: [u8; L] = kani::any();
     kani::assume(sorted(&old[..L - 1]));
     let mut v = old;
@@ -82,7 +82,7 @@ pub fn c18_shift_tail<const L: usize>() {
     kani::cover!(v[L - 1] != old[L - 1]);
 }
 
-pub fn c18_partial_insertion_sort<const L: usize>() {
+pub fn k18_partial_insertion_sort<const L: usize>() {
     let old: [u8; L] = kani::any();
     let mut v = old;
     let done = partial_insertion_sort(&mut v, &less);
@@ -93,7 +93,7 @@ pub fn c18_partial_insertion_sort<const L: usize>() {
     kani::cover!(done);
 }
 
-pub fn c18_partition<const L: usize>() {
+pub fn k18_partition<const L: usize>() {
     let old: [u8; L] = kani::any();
     let pivot: usize = kani::any();
     kani::assume(pivot < L);
@@ -115,7 +115,7 @@ pub fn c18_partition<const L: usize>() {
     kani::cover!(mid > 0 && mid < L - 1);
 }
 
-pub fn c18_partition_equal<const L: usize>() {
+pub fn k18_partition_equal<const L: usize>() {
     let old: [u8; L] = kani::any();
     let pivot: usize = kani::any();
     kani::assume(pivot < L);
@@ -142,7 +142,7 @@ pub fn c18_partition_equal<const L: usize>() {
     kani::cover!(mid < L);
 }
 
-pub fn c18_choose_pivot<const L: usize>() {
+pub fn k18_choose_pivot<const L: usize>() {
     let old: [u8; L] = kani::any();
     let mut v = old;
     let (p, _likely_sorted) = choose_pivot(&mut v, &less);
@@ -151,7 +151,7 @@ pub fn c18_choose_pivot<const L: usize>() {
     kani::cover!(true);
 }
 
-pub fn c18_break_patterns<const L: usize>() {
+pub fn k18_break_patterns<const L: usize>() {
     let old: [u8; L] = kani::any();
     let mut v = old;
     break_patterns(&mut v);
@@ -161,7 +161,7 @@ pub fn c18_break_patterns<const L: usize>() {
 
 /// the public entry: sorted permutation, reports "not cancelled" when the flag is never raised;
 /// flag raised before the call => reports cancelled and leaves the slice untouched
-pub fn c18_par_quicksort<const L: usize>() {
+pub fn k18_par_quicksort<const L: usize>() {
     let old: [u8; L] = kani::any();
     let mut v = old;
     let raised: bool = kani::any();
@@ -178,7 +178,7 @@ pub fn c18_par_quicksort<const L: usize>() {
 }
 
 /// canary: must FAIL
-pub fn c18_canary() {
+pub fn k18_canary() {
     let old: [u8; 4] = kani::any();
     let mut v = old;
     insertion_sort(&mut v, &less);
